@@ -92,7 +92,7 @@ func init() {
 	checks["C08"] = histCheck("C08", []string{"C05.reset_readback", "C08.accepts", "C08.accepts_number", "C08.accepted_shape", "C08.position_agrees", "C08.out_of_range_refused", "C08.mode_table", "C08.resetCmd_ok", "C08.reset_soft", "C08.reset_refused", "C05.reset_readback"}, histRule+"; before every reset the `reflog` listing is sampled",
 		func(ctx *Ctx) *HistCfg {
 			return &HistCfg{Prop: "C08", Cases: tierN(ctx, 200, 2000), MinSteps: 10, MaxSteps: 35,
-				W:       weights(Weights{"commit": 16, "reset": 14, "switch": 3, "switch-c": 2, "rmdir": 4, "rmfile": 5, "junk": 0}),
+				W:       weights(Weights{"commit": 16, "reset": 14, "rename-reset": 4, "switch": 3, "switch-c": 2, "rmdir": 4, "rmfile": 5, "junk": 0}),
 				Oracles: []HistOracle{orC08}, PreReset: true}
 		})
 	checks["C09"] = histCheck("C09", []string{"C09.restore_only_tracked", "C09.restore_named", "C09.restore_unknown_refused", "C06.isDir_iff", "C06.mem_byDir", "C06.getEntry_correct", "C04.update_membership", "C04.delete_exact", "C09.restoreStaged_exact", "C09.restoreStaged_unknown_refused", "C09.restoreIndexOne_spec", "C09.restoreIndexOne_refused_iff", "C09.rsFold_spec"}, histRule,
@@ -116,7 +116,14 @@ func init() {
 				// names with the extensions the generated `*.ext` entries use, so that ignored files really
 				// exist next to files that sort before and after them
 				Names: func(r *rng) []string {
-					pool := []string{"a.log", "m.log", "z.log", "b.tmp", "y.tmp", "k.c", "n.txt", "d", "d0", "sub", "lib", "x+y", "zz", "aa", "m", "d e", "ü"}
+					// and name families around the byte order of '/' (a directory `d` next to tracked siblings `d.c`, `d-old`, `d e`, `d0`):
+					// directory order and byte order of full paths differ exactly there
+					pool := []string{"a.log", "m.log", "z.log", "b.tmp", "y.tmp", "k.c", "n.txt", "d", "d0", "d.c", "d-old", "d e", "sub", "sub.log", "sub-2", "lib", "x+y", "zz", "aa", "m", "ü"}
+					if r.chance(1, 2) {
+						// one family only: collisions of a directory with its siblings become likely
+						fam := r.pick([]string{"d", "sub", "m"})
+						pool = []string{fam, fam + ".c", fam + "-old", fam + " e", fam + "0", fam + ".log", "a", "zz", "k.tmp"}
+					}
 					var out []string
 					for i := 0; i < 6+r.intn(5); i++ {
 						out = append(out, pool[r.intn(len(pool))])
@@ -172,7 +179,7 @@ func init() {
 	checks["C05"] = histCheck("C05", []string{"C05.reset_readback", "C05.readback_writeTree", "C05.walk_write", "C05.walk_encode", "C05.walk_empty", "C05.render_children", "C05.loop_encode", "C02.flatten_writeTree"}, histRule+"; after every commit `cat-file -p` is run on every tree of the snapshot, and `reset --mixed` + `ls-files -s` read snapshots back",
 		func(ctx *Ctx) *HistCfg {
 			return &HistCfg{Prop: "C05", Cases: tierN(ctx, 200, 2000), MinSteps: 8, MaxSteps: 30,
-				W:       weights(Weights{"commit": 18, "add-all": 8, "add": 14, "rm": 6, "reset": 8, "ls-files": 6, "cat-file": 6, "write": 18, "junk": 0}),
+				W:       weights(Weights{"commit": 18, "add-all": 8, "add": 14, "rm": 6, "reset": 8, "rename-reset": 3, "ls-files": 6, "cat-file": 6, "write": 18, "junk": 0}),
 				Oracles: []HistOracle{orC05, orC08}, PreReset: true, CatTrees: true}
 		})
 	checks["C06"] = histCheck("C06", []string{"C06.decode_encode", "C06.getEntry_correct", "C06.isDir_iff", "C06.mem_byDir", "C06.byDir_sublist", "C04.eraseIdx_canonical", "C04.sortEntries_sorted"}, histRule,
@@ -199,6 +206,16 @@ func init() {
 		"C06": genC06, "C07": genC07, "C10": genC10, "C11": genC11, "C12": genC12, "C17": genC17, "C20": genC20,
 		"C02": func(c *Ctx, r *rng) []Case { return genTrees(c, r, "C02") },
 		"C05": func(c *Ctx, r *rng) []Case { return genTrees(c, r, "C05") },
+		// C08: the reset read-back cases (Index.Reset with a fresh and with a pre-filled staging area) on a sample of the tree shapes
+		"C08": func(c *Ctx, r *rng) []Case {
+			var out []Case
+			for i, cs := range genTrees(c, r, "C08") {
+				if i%4 == 0 {
+					out = append(out, cs)
+				}
+			}
+			return out
+		},
 	} {
 		checks[prop].Gen = g
 	}
